@@ -76,7 +76,6 @@ Definition in_i64 (z : Z) : bool := ((- 2 ^ 63 <=? z) && (z <=? 2 ^ 63 - 1))%Z.
 Definition in_u64 (n : N) : bool := n <? 2 ^ 64.
 Definition in_u32 (n : N) : bool := n <? 2 ^ 32.
 
-Definition IMAGES2D : xstr := B"images2D".
 Definition is_std_record_name (local : xstr) : bool :=
   existsb (fun p => xstr_eqb (fst p) local) record_name_table.
 Definition is_foreign_uri (uri : xstr) : bool := negb (is_empty uri) && negb (xstr_eqb uri E57_NAMESPACE).
@@ -91,19 +90,15 @@ Definition opt_xstr_eqb (o : option xstr) (s : xstr) : bool :=
     - looking its URL up among the declarations of the root gives ns back, i.e. no EARLIER extension
       has the same URL and the URL is not the XML namespace (writer: register_extension rejects
       both since 7be2bad / 0758997);
-    - the URL is neither empty nor the E57 namespace, or else the name is not a standard record
-      name (NOT enforced by the writer: with such a URL <ext:cartesianX> is read back as the
-      standard CartesianX - candidate finding);
-    - the name is not "images2D" (NOT enforced by the writer: the reader finds the images with
-      document.descendants().find(has_tag_name("images2D")), which such a prototype element
-      captures, and reports no images - candidate finding). *)
+    - the URL is neither empty nor the E57 namespace (writer: Extension::validate_url since e021335;
+      with such a URL <ext:cartesianX> would be read back as the standard CartesianX).
+    No condition on the name (since cec9560 the reader looks for images2D among the children of
+    e57Root only, so an attribute called images2D no longer hides the images). *)
 Definition record_name_ok (exts : list extension) (n : record_name) : bool :=
   match n with
   | Unknown ns name =>
       match ext_uri exts ns with
-      | Some u => opt_xstr_eqb (scope_prefix (scope_of exts) u) ns &&
-                  (is_foreign_uri u || negb (is_std_record_name name)) &&
-                  negb (xstr_eqb name IMAGES2D)
+      | Some u => opt_xstr_eqb (scope_prefix (scope_of exts) u) ns && is_foreign_uri u
       | None => false
       end
   | _ => true
